@@ -29,11 +29,15 @@ THEOREMS = [f'Gnpy.Edfa.{t}' for t in (
     'gain_profile_normalised_partial', 'callSeq_unsaturated', 'callSeq_persists', 'nf_stage_at_gmax_gmin',
     'nf_openroadm', 'nf_openroadm_preamp', 'multiCall_none_iff', 'multiCall_per_band', 'coil_pos_of_spread',
     'nf_stage_antitone', 'interp_const', 'dual_stage_limits', 'dual_stage_total_out_le_booster_pmax',
-    'dual_stage_rejected_iff')]
-PARTIAL = ['gain_profile_normalised_partial: under tilt or gain ripple the secant step of Edfa._gain_profile only '
-           'approximates the target average gain; proved: the profile is g1st - voa + dgt*x for one scalar x (so its '
-           'shape is exactly ripple + x\'*dgt) and the flat case is exact; the residual of the average gain is '
-           'bounded by the monitor (0.02 dB), not by a theorem']
+    'dual_stage_rejected_iff', 'flat_branch_total_gain', 'gain_profile_normalised_uniform_flat', 'secantStep_affine',
+    'gain_profile_normalised_const_dgt')]
+PARTIAL = ['gain_profile_normalised_partial: proved exact in three cases: flat configuration (gain_profile_flat), uniform '
+           'input with gain excursion <= 0.05 dB (gain_profile_normalised_uniform_flat), constant dynamic gain tilt '
+           'over the loaded channels with any input, within the code tolerance 1e-11 dB '
+           '(gain_profile_normalised_const_dgt via secantStep_affine: the secant step is exact when the average gain '
+           'is affine in the DGT scale). In general the average gain is a strictly convex log-sum-exp of the scale and '
+           'one secant step only approximates the target: the profile is g1st - voa + dgt*x for one scalar x (proved) '
+           'and the residual of the average gain is bounded by the monitor (0.02 dB), not by a theorem']
 RULE = ('cases from one PRNG: (a) 66% amplifier crossings: an amplifier of a shipped library or of a generated '
         'library (variable/fixed gain, advanced polynomial with ripple, OpenROADM ila/preamp/booster, dual stage, '
         'custom bands/default configs), gain -5..40 dB, tilt in {0,+-1,+-2,random}, in/out VOA, 1-3 consecutive calls '
